@@ -113,7 +113,7 @@ func (j *judge) run() {
 			return
 		}
 	}
-	for !w.viol {
+	for !w.viol.Load() {
 		// next instant: earliest of next op, next observed start, next reference wake
 		var T time.Time
 		pick := func(t time.Time) {
